@@ -61,6 +61,7 @@ type StepResult struct {
 	Class   string   // ok | invalid | err | panic
 	Detail  string   // error name or panic text
 	Effects []string // E lines (only when Class == ok)
+	Answers []string // Q / G lines of the query and genesis ops (SPEC.md §4), sorted
 	State   []string // sorted state lines
 }
 
@@ -91,6 +92,9 @@ func (r *StepResult) WriteBlock(w io.Writer) error {
 	for _, e := range r.Effects {
 		b.WriteString(e + "\n")
 	}
+	for _, a := range r.Answers {
+		b.WriteString(a + "\n")
+	}
 	for _, s := range r.State {
 		b.WriteString(s + "\n")
 	}
@@ -111,9 +115,13 @@ type Sim struct {
 
 	escrow, deposit, collector sdk.AccAddress
 
-	txCounter uint64
-	started   bool
-	Stopped   bool // set after a panic in endblock: the trace ends
+	modules []string // names on the genesis line, registered again on the app of `reimport`
+	modsvc  string
+
+	txCounter  uint64
+	started    bool
+	Stopped    bool // set after a panic in endblock, and after reimport: the trace ends
+	Reimported bool // the trace was ended by the terminal op reimport
 }
 
 func NewSim() *Sim { return &Sim{} }
@@ -157,7 +165,7 @@ func (s *Sim) Step(line string) (*StepResult, error) {
 		return nil, err
 	}
 	if s.Stopped {
-		return nil, fmt.Errorf("trace already stopped by a panic in endblock")
+		return nil, fmt.Errorf("trace already stopped (panic in endblock, or reimport)")
 	}
 	if (op.Name == "genesis") == s.started {
 		if s.started {
@@ -253,6 +261,31 @@ func (s *Sim) Step(line string) (*StepResult, error) {
 			return nil, op.err
 		}
 		events = s.endBlock(res, dt)
+
+	case "query":
+		if err := s.query(res, op); err != nil {
+			return nil, err
+		}
+
+	case "prep":
+		events = s.prepZeroHeight(res)
+
+	case "export":
+		s.exportGenesis(res)
+
+	case "validate":
+		s.validateGenesis(res)
+
+	case "jsonrt":
+		s.jsonRoundTrip(res)
+
+	case "reimport":
+		// terminal: the block shows the NEW app, and the trace ends
+		if err := s.reimport(res); err != nil {
+			return nil, err
+		}
+		s.Stopped, s.Reimported = true, true
+		return res, nil
 
 	default: // the 14 messages
 		msg, tx, idx, err := buildMsg(op)
@@ -368,16 +401,35 @@ func (s *Sim) genesis(op *Op) error {
 	s.k.SetParams(s.ctx, params)
 	s.handler = service.NewHandler(s.k)
 
+	s.modules, s.modsvc = modules, modsvc
+	if err := registerModules(s.k, modules, modsvc); err != nil {
+		return err
+	}
+
+	// baseline: every existing balance and the total stake supply right after setup
+	s.baseline = make(map[string]bool)
+	s.iterateBalances(func(addr sdk.AccAddress, _ sdk.Coin) {
+		s.baseline[string(addr)] = true
+	})
+	s.baseSupply = s.app.BankKeeper.GetSupply(s.ctx).GetTotal().AmountOf(stakeDenom)
+	s.started = true
+	return nil
+}
+
+// registerModules registers on a keeper what the genesis line asks for: the
+// recording callbacks for every module name, and the module service. Used for
+// the app of the genesis line and for the fresh app of `reimport`.
+func registerModules(k keeper.Keeper, modules []string, modsvc string) error {
 	for _, m := range modules {
-		if err := s.k.RegisterResponseCallback(m, recordRespCallback); err != nil {
+		if err := k.RegisterResponseCallback(m, recordRespCallback); err != nil {
 			return err
 		}
-		if err := s.k.RegisterStateCallback(m, recordStateCallback); err != nil {
+		if err := k.RegisterStateCallback(m, recordStateCallback); err != nil {
 			return err
 		}
 	}
 	if modsvc != "" {
-		err := s.k.RegisterModuleService(modSvcModule, &types.ModuleService{
+		err := k.RegisterModuleService(modSvcModule, &types.ModuleService{
 			ServiceName: modsvc,
 			Provider:    modSvcProvider,
 			ReuquestService: func(ctx sdk.Context, input string) (string, string) {
@@ -388,14 +440,6 @@ func (s *Sim) genesis(op *Op) error {
 			return err
 		}
 	}
-
-	// baseline: every existing balance and the total stake supply right after setup
-	s.baseline = make(map[string]bool)
-	s.iterateBalances(func(addr sdk.AccAddress, _ sdk.Coin) {
-		s.baseline[string(addr)] = true
-	})
-	s.baseSupply = s.app.BankKeeper.GetSupply(s.ctx).GetTotal().AmountOf(stakeDenom)
-	s.started = true
 	return nil
 }
 
